@@ -62,6 +62,11 @@ VARIANTS = [
                                        "log(q(x'|x) / q(x | x')) is the log_mh_correction.")),
       note="documented convention is the reciprocal of what mh_step applies",
       expect_rule="C06.R4"),
+    V("c06_mh_default_correction", "M", "liesel/goose/mh.py", "",
+      lambda nd: isinstance(nd, ast.FunctionDef) and nd.name == "mh_step",
+      lambda nd: (setattr(nd.args, "defaults", [ast.Constant(1.0)]) or nd),
+      note="mh_step's default correction is not zero (RW relies on the default)",
+      expect_rule="C06.R1"),
     # ---- twins
     V("c06_t_doc_reworded", "T", MK, "MHProposal",
       lambda nd: isinstance(nd, ast.Expr) and isinstance(nd.value, ast.Constant)
